@@ -113,3 +113,28 @@ PROPS["C05"]["groups"] += [
     dict(name="enum-kill", harness="cluster", weight=4, runs=dict(quick=64, thorough=4000), opts=dict(lossy=False, jitter=True, nmax=6),
          enumerate=dict(kinds=["kill_worker", "kill_data", "kill_shm", "task"], quick=60, thorough=None)),
 ]
+
+REAL_COMMS = ["cascade.executor.comms (Listener, ReliableSender, callback, send_data)", "cascade.executor.bridge.Bridge (registration, recv_events, shutdown)",
+              "cascade.executor.executor.Executor (register, recv_loop, healthcheck, terminate, to_controller)", "cascade.executor.serde", "cascade.executor.msg"]
+STUB_COMMS = ["zmq (simulated network with drop/duplicate/delay/partition on Syn and Ack frames)", "executor children: stub shm server, stub data server (real Listener), stub workers answering every TaskSequence with a DatasetPublished",
+              "shm client (ensure/shutdown no-ops)", "virtual clock"]
+PROPS["C06"] = dict(
+    level="fault_enumeration", budget=dict(quick=90, thorough=900),
+    groups=[
+        dict(name="clean", harness="comms", weight=1, runs=dict(quick=600, thorough=10000), opts=dict(lossy=False)),
+        dict(name="lossy", harness="comms", weight=3, runs=dict(quick=2500, thorough=60000), opts=dict(lossy=True)),
+        dict(name="partition", harness="comms", weight=2, runs=dict(quick=600, thorough=15000), opts=dict(lossy=False, partition=True)),
+        dict(name="malformed", harness="comms", weight=1, runs=dict(quick=1500, thorough=30000), opts=dict(mode="malformed")),
+        dict(name="enum-frame", harness="comms", weight=3, runs=dict(quick=64, thorough=3000), opts=dict(lossy=False, max_ops=12),
+             enumerate=dict(kinds=["frame"], quick=50, thorough=None)),
+        dict(name="cl-lossy", harness="cluster", weight=3, runs=dict(quick=600, thorough=20000), opts=dict(lossy=True, jitter=True)),
+    ],
+    rule="run = (endpoints, command script in both directions, per-frame drop/duplicate/delay pattern or partition or malformed sequences, schedule); "
+         "distinct = distinct event-log digest; non-trivial = at least one drop or duplicate fired on an acknowledged frame or ack, a partition was active, or a malformed sequence was injected",
+    real=REAL_COMMS + ["cluster group: everything of the cluster harness"], stub=STUB_COMMS,
+    assumptions=["loss and duplication are applied only to Syn-prefixed frames and bare Acks (traffic the protocol is built to survive); local unacknowledged frames are delayed/reordered only",
+                 "messages handed over after an endpoint began teardown (ExecutorExit, last ExecutorShutdown) are excluded from the liveness clause (counted as excluded_teardown_message)",
+                 "fair loss = fewer consecutive drops on one link than the retry budget"],
+    level_text="seeded fault injection on the wire (drop / duplicate / delay of acknowledged frames and of acks, partitions longer than the retry budget, malformed multipart sequences) with the real Bridge and Executor receive loops, plus single-loss and single-duplication enumeration of every acknowledged frame and ack of recorded base runs; oracle over (sender address, idx): delivered at most once, equal to what was sent, at quiescence delivered exactly once or the sender raised, bounded give-up, malformed sequences rejected",
+    level_note=_LN,
+)
